@@ -845,6 +845,12 @@ class RedlineEngine:
         if not target_runs:
             return False
 
+        # Revision marks and comment ranges cannot span document parts: a range that runs from one story into the
+        # next (header -> body -> footer) is not editable as one change.
+        if len({id(r._element.getroottree().getroot()) for r in target_runs}) > 1:
+            logger.warning("Skipping edit: the target spans more than one document part.")
+            return False
+
         if op == EditOperationType.DELETION:
             first_del_element = None
             last_del_element = None
